@@ -1,10 +1,14 @@
 import sys, os, glob
 sys.path.insert(0, os.path.dirname(os.path.abspath(__file__)))
 import vlib
-vlib.coq_setup()
-rc, out, err = vlib.sh(['timeout', '7200', 'make', '-k', '-j%d' % vlib.NCPU], cwd=vlib.COQDIR)
-print(out[-3000:])
-print(err[-3000:])
+targets = [f[:-2] + '.vo' for f in vlib.coq_files()]
+res = vlib.coq_make(targets, timeout=3000)
+nbad = 0
+for t, (ok, log) in sorted(res.items()):
+    if not ok:
+        nbad += 1
+        print('FAILED', t)
+        print(log[-1500:])
 bad = vlib.coq_gate()
 if bad:
     print('GATE:', bad)
@@ -12,5 +16,5 @@ try:
     vlib.build_repo('plain', ('mir', 'mir-gen', 'c2mir', 'mir2c'))
 except vlib.BuildError as e:
     print(e)
-print('setup done; coq make rc=%d' % rc)
+print('setup done; %d coq files, %d failed' % (len(targets), nbad))
 sys.exit(0)
